@@ -1152,6 +1152,7 @@ class Client():
                         except httping.HTTPException as ex:
                             # refused so deliver redirect response as final errored response
                             self.redirects.pop()
+                            self.respondent.redirectant = False  # not pending anymore
                             response['errored'] = True
                             response['error'] = str(ex)
                             redirecting = False
